@@ -26,6 +26,11 @@ type mutant struct {
 	New    string `json:"new"`    // replacement
 	Expect string `json:"expect"` // substring of the obligation key that must be violated
 	Why    string `json:"why"`
+	More   []struct {
+		File string `json:"file"`
+		Old  string `json:"old"`
+		New  string `json:"new"`
+	} `json:"more"` // further edits of the same mutant (cooperating changes)
 }
 
 func main() {
@@ -89,6 +94,18 @@ func main() {
 			os.Exit(3)
 		}
 		c.Overlay = map[string][]byte{path: []byte(strings.Replace(string(src), m.Old, m.New, 1))}
+		for _, e := range m.More {
+			p2 := filepath.Join(c.RepoDir, e.File)
+			src2, ok := c.Overlay[p2]
+			if !ok {
+				src2, err = os.ReadFile(p2)
+			}
+			if err != nil || strings.Count(string(src2), e.Old) != 1 {
+				fmt.Printf("MUTANT-STALE %s: anchor text occurs %d times in %s\n", m.Name, strings.Count(string(src2), e.Old), e.File)
+				os.Exit(3)
+			}
+			c.Overlay[p2] = []byte(strings.Replace(string(src2), e.Old, e.New, 1))
+		}
 	}
 	code := run(c, r)
 	if m != nil {
